@@ -31,6 +31,7 @@ var edgeTexts = []string{
 	"a.b.c", ".a.b", ".", "..", "a.", ".5.", "#a", "?a", "a#", "$x", "a$b", "@", "a@b", "&", "&&", "||", "a && b", "a&b", "|", "!", "!=", "<!", "<-", "->", "**", "*=", "/=", "a**b", "a*b", "++", "--", "a++", "-a", "+a", "a+b", "a-b", "a -b", "a - b", "e-1", "1e-", "1e-x", "e+", "1e1e-1",
 	"true false", "truefalse", "true:", "nil", "(a:b:c)", "a::b", "::", ":=", ":==", "=:", "a=b", "a==b", "<=", ">=", "a<=b", "a<b>c",
 	"é", "(é \"é\" 'é')", "a\tb", "a\rb", "\x00", "a\x00b", "x y\n", "(a . b)", "0x", "0xg", "1a", "1.", "1.e5", "1e5.", "1__2", "_1", "-_1", "--1", "- 1", "-1-1", "1-1", "(1)-1", "[1]-1", "a,-1", "a;-1", "a:-1", "\"s\"-1", "`s`-1", "'c'-1", "}-1", "{-1}", "=-1", "!-1",
+	"{ { // c\n }", "{ //c\n}", "{ /* c */ }", "({ // c\n} x)", "{ { /* c */ } a }", "{ { // c\n } }",
 	"(quote a)", "%%a", "%~a", "^^a", "~~a", "~@~a", "%", "(%)", "[%]", "{%}", "[a %", "{a %", "(a ^", "(a ~@", "(a ~", "(a %\n b)", "(def x %\n  (1 2 3))",
 }
 
@@ -200,4 +201,52 @@ func atomSamples(r *lib.Rng, thorough bool) []string {
 		}
 	}
 	return out
+}
+
+// multi-line REPL entries (one form, or a form started on the first line)
+var replEntries = []string{
+	"(def a 1)", "a", "(def b\n  [1 2\n   3])", "(def s `one\n\nthree`)", "(def s `one\n   \nthree` 7)", "(def q \"x\n\ny\")",
+	"(def q \"x\n \t \ny\" 1)", "(f /* c1\n\n c3 */ 8)", "(f /* c1\n   \n c3 */ 8)", "`alpha\n\n\nomega`", "\"a\n\nb\"", "/* a\n\n b */",
+	"(a\n\nb)", "(a\n   \nb)", "[1\n\n2\n\n\n3]", "{a:1\n\nb:2}", "{x +\n\n y}", "(a %\n b)", "(a %\n\n b)", "(a \\\n\n b)", "(a\n\\ b)", "(a \\ b\n)",
+	"(def x %\n  (1 2 3))", "%\n\na", "^\n(a ~\n\nb)", "(a // c\n\n b)", "(\n\n\n)", "(a `x\n`\n\n)", "(a \"\n\")", "(`\n\n`)", "(\"\n\n\")",
+	"(a -\n\nInf)", "(- \n 1)", "(a '\\n'\n\n)", "(a\n", "(a \"b\n\n", ")", "(]", "a \"b", "(+ 1 2) -", "-", "(a\n\n\n\n\n\n\nb)", "(a `b\n\n\n\n\n\n\nc`)",
+	"(x /* \n * doc\n *\n **/ y)", "(a \"b\\\n\nc\")", "(a\n;\n\nb)", "(a,\n\n,b)", "(a:\n\n1)", "(a :=\n\n1)", "(1e\n-5)", "(ab\ncd)", "(a \"b\n   c\" `d\n   e`)",
+}
+
+var replItems = []string{"a", "b1", "42", "-1", "1.5", "\"s\"", "\"p\n\nq\"", "\"p\n  \nq\"", "\"\n\"", "`r`", "`x\n\ny`", "`x\n \t\ny`", "`\n\n`",
+	"/* c */", "/* c\n\n d */", "/* c\n   \n d */", "// c\n", "%a", "~b", "^(q ~r)", "(a b)", "[1 2]", "{k:1}", "{x + 1}", "'c'", "k:", ":=", "-", "+", "(a \\ b)", "nil", "true"}
+var replSeps = []string{" ", " ", "\n", "\n", "\n\n", "\n  \n", "\n\t\n", "\n\n\n", "  ", " \n "}
+
+// genReplEntry: one bracketed form spread over several lines, with blank and whitespace-only lines
+// between and inside its elements; sometimes preceded by a complete first line or left unfinished.
+func genReplEntry(r *lib.Rng) string {
+	open, close := "(", ")"
+	switch r.Intn(5) {
+	case 0:
+		open, close = "[", "]"
+	case 1:
+		open, close = "{", "}"
+	}
+	var sb strings.Builder
+	sb.WriteString(open)
+	n := 1 + r.Intn(6)
+	for i := 0; i < n; i++ {
+		if i > 0 || r.Intn(3) == 0 {
+			sb.WriteString(pick(r, replSeps))
+		}
+		if r.Intn(6) == 0 {
+			sb.WriteString(genExpr(r, 2))
+		} else {
+			sb.WriteString(pick(r, replItems))
+		}
+	}
+	if r.Intn(3) == 0 {
+		sb.WriteString(pick(r, replSeps))
+	}
+	if r.Intn(12) != 0 {
+		sb.WriteString(close)
+	}
+	s := sb.String()
+	s = strings.ReplaceAll(s, "\r", " ")
+	return strings.TrimRight(s, "\n")
 }
